@@ -210,6 +210,11 @@ def addOk (qa : Quantity) (ua : U) (qb : Quantity) (ub : U) (constA constB sameD
     -- an accepted sum keeps the defined quantity of its operands and is labelled consistently
     ((!qa.isDefined || qr == qa) && (!qb.isDefined || qr == qb) && labelOk qr ur)
 
+/-- two phasors (or two phasor ratios) at different angular frequencies live in different domains:
+    unless one of them is zero their sum / difference must be refused and they never compare equal -/
+def omegaOk (bothPhasor sameOmega anyZero refused : Bool) : Bool :=
+  !(bothPhasor && !sameOmega && !anyZero) || refused
+
 /-- `a == b` must be False whenever the sum must be refused -/
 def eqOk (qa qb : Quantity) (constA constB sameDomain : Bool) (equal : Bool) : Bool :=
   !(mustRefuse qa qb constA constB sameDomain) || !equal
